@@ -476,6 +476,8 @@ def c14(tier):
     S = scen.Script()
     for fmt, ch in _fmts(exe, tier, (1, 2) if tier == "quick" else (1, 2, 3)):
         gen_env.c14_scenario(S, fmt, ch, RATE, rng)
+        if scen.major(fmt) in (1, 2, 3, 0x13) and scen.is_granular(fmt) and ch == 1:
+            gen_env.c14_scenario(S, fmt, ch, RATE, rng, N=3)          # embedded files shorter than a WAV header
     mcs = [gen_core.mc_rw("R", 2, tag=tier[0])]
     return core_check("C14", tier, mcs, S.lines, "DESIGN.md section 6 C14",
                       "every writable format x channels: written through {vio, fd close_desc=1, fd close_desc=0, path} (byte identity by SameBytesOK, descriptor closed iff close_desc by CloseOK) and read back through {vio, fd, fdk, path, embedded at offset 44 and 4096 with leading/trailing junk, pipe for WAV/AIFF/AU granular}: same info and samples (shared content), garbage fails the same way on every route",
@@ -496,6 +498,13 @@ def c16(tier):
     for fmt, ch in fmts[:20]:
         gen_core.invalid_calls(S, fmt, ch, RATE, "rw", rng)
         gen_core.rdwr_random(S, fmt, ch, RATE, rng, steps=30, pre=10)
+    # handles on which calls have failed: the codecs that keep a temporary file (ALAC) and block buffers, written under persistent
+    # transfer faults from every fault point on; only the ledger clause matters here
+    frep = [x for x in [(0x180070, 1), (0x180072, 2), (0x10012, 1), (0x110002, 1), (0x50003, 1)] if x in set(_fmts(exe, tier, (1, 2)))]
+    Kc = gen_env.c15_calibrate(exe, frep, RATE)
+    for (fmt, ch, name), k in Kc.items():
+        if name == "w":
+            gen_env.c15_scenarios(S, fmt, ch, RATE, name, k, step=1, kinds=["zero", "short"], stickies=(1,))
     # Sound Designer II keeps its parameters in a resource fork beside the data file (path route only): every byte of the fork mutated
     # in place, the open that follows fails (or succeeds) at every depth of the fork parser and must leave nothing behind
     for fmt, ch in [(f, c) for f, c in _fmts(exe, tier, (1, 2)) if scen.major(f) == scen.SD2][::(2 if tier == "quick" else 1)]:
@@ -543,6 +552,16 @@ def c15(tier):
             if name == "r":
                 total_k += k
                 gen_env.c15_scenarios(S, fmt, ch, RATE, name, k, step=1, kinds=["zero", "lenbig"], stickies=(1,))
+    # real OS errors on the descriptor route: the descriptor is replaced behind the library's back by one that cannot be written
+    for fmt, ch in rep + rest:
+        if scen.major(fmt) == scen.SD2:
+            continue
+        T = gen_core.type_for(fmt)
+        for Tw in (T, "f"):
+            S.scn(fmt="0x%x" % fmt, ch=ch, T=Tw, kind="c15os")
+            S.add("file 1 new", "open 0 fd w 1 %d %d %d" % (fmt, ch, RATE), "write 0 %s f 64 gen noise 3 0" % Tw, "fdclose 0",
+                  "write 0 %s f 64 gen noise 4 0" % Tw, "write 0 %s i %d gen noise 5 0" % (Tw, 2 * ch), "write 0 r i 8 gen noise 6 0", "cmd 0 UPDATE_HEADER_NOW 0",
+                  "write 0 %s f 3000 gen zeros 1 0" % Tw, "seek 0 0 1", "close 0")
     mcs = [gen_core.mc_rw("RW", 2, tag=tier[0], maxwrites=1)]
     return core_check("C15", tier, mcs, S.lines, "DESIGN.md section 6 C15",
                       "representative formats (one per container and codec family) x workloads {write-close, open-read-seek-close, rdwr}: a fault-free run counts K callbacks, then EVERY fault point 1..K x {zero-length transfer, short transfer, failed seek, length too big, length too small} x {single shot, persistent} is executed (complete enumeration; sum of K = %d); TraceCore with widened outcome sets: return values in range, position advances by the returned count, every call returns (watchdog), ledger empty after close" % total_k,
@@ -1028,7 +1047,11 @@ def c17(tier):
     undefined = ["0", "1", "-1", "0x0FFF", "0x1235", "0x7FFFFFFF", "0x1001", "0x10FF", "0x1400", "0x13FF"]
     structs = [4, 8, 16, 24, 28, 32, 44, 56, 216, 220, 858, 1112, 2316, 2572, 27204, 27208]
     base = list(range(0, 41))
-    sizes = sorted(set(base + [x + d for x in structs for d in ((-1, 0, 1, 8) if tier == "quick" else range(-2, 9))] + [4096] + ([] if tier == "quick" else [1 << 20])))
+    # offsets of the fields that follow a variable or optional part (coding_history_size, coding_history, tag_text_size, tag_text ...):
+    # a size that ends inside such a field is where a late store goes wrong
+    inner = [604, 608, 2048, 2052, 284, 564]
+    sizes = sorted(set(base + [x + d for x in structs for d in ((-1, 0, 1, 8) if tier == "quick" else range(-2, 9))] + [x + d for x in inner for d in range(-1, 5)]
+                       + [4096] + ([] if tier == "quick" else [1 << 20])))
     sizes = [x for x in sizes if x >= 0]
     handles = [("none", None, None)]
     fmts = [(0x10002, 2), (0x40006, 1)] if tier == "quick" else [(0x10002, 2), (0x10006, 1), (0x130002, 2), (0x220002, 1), (0x20002, 2), (0x20006, 1), (0x180002, 2), (0x180006, 1), (0x40002, 1), (0x40006, 2)]
@@ -1057,7 +1080,7 @@ def c17(tier):
                 if mode in ("w", "rw"):
                     lines.append("write 0 %s f 2 gen noise 4 0" % T)
             for sz in sizes:
-                if tier == "quick" and sz > 60 and rng.random() < 0.5:
+                if tier == "quick" and sz > 60 and rng.random() < 0.5 and not any(0 <= sz - x + 1 <= 5 for x in inner):
                     continue
                 for hasdata in (0, 1):
                     lines.append("cmdgrid %d %s %d %d" % (0 if fmt else -1, nm, sz, hasdata))
